@@ -171,9 +171,10 @@ while i < n:
             for transport in ('pty', 'popen', 'fd', 'socket'):
                 tried += 1
                 want = expected(n)
+                up = ctx.rng.random() < 0.5           # wait with poll() instead of select()
                 try:
                     if transport == 'pty':
-                        c = pexpect.spawn(sys.executable, ['-c', 'import tty,sys; tty.setraw(1)\n' + gen, str(n), str(k)], maxread=maxread, timeout=60)
+                        c = pexpect.spawn(sys.executable, ['-c', 'import tty,sys; tty.setraw(1)\n' + gen, str(n), str(k)], maxread=maxread, timeout=60, use_poll=up)
                         c.expect(pexpect.EOF)
                         got = c.before
                         c.close()
@@ -186,7 +187,7 @@ while i < n:
                         r, w = os.pipe()
                         th = threading.Thread(target=lambda: (_write_all(w, want, k), os.close(w)))
                         th.start()
-                        c = fdpexpect.fdspawn(r, maxread=maxread, timeout=60)
+                        c = fdpexpect.fdspawn(r, maxread=maxread, timeout=60, use_poll=up)
                         c.expect(pexpect.EOF)
                         got = c.before
                         th.join()
@@ -196,7 +197,7 @@ while i < n:
                         th = threading.Thread(target=lambda: (b.sendall(want), b.close()))
                         th.start()
                         a.settimeout(33.0)
-                        c = socket_pexpect.SocketSpawn(a, maxread=maxread, timeout=60)
+                        c = socket_pexpect.SocketSpawn(a, maxread=maxread, timeout=60, use_poll=up)
                         c.expect(pexpect.EOF)
                         got = c.before
                         th.join()
@@ -204,12 +205,12 @@ while i < n:
                             ctx.hit('C06/socket-timeout', "socket's own timeout changed from 33.0 to %r" % (a.gettimeout(),), {'n': n})
                         c.close()
                 except Exception as e:
-                    ctx.hit('C06/real-' + transport, '%s transport, %d bytes, maxread %d: %r' % (transport, n, maxread, e), {'n': n, 'maxread': maxread})
+                    ctx.hit('C06/real-' + transport, '%s transport (use_poll=%s), %d bytes, maxread %d: %r' % (transport, up, n, maxread, e), {'n': n, 'maxread': maxread, 'use_poll': up})
                     return tried
                 if got != want:
                     i = next((j for j in range(min(len(got), len(want))) if got[j] != want[j]), min(len(got), len(want)))
                     ctx.hit('C06/real-' + transport, '%s transport: peer wrote %d bytes in pieces of %d, reads (maxread %d) returned %d bytes; first difference at offset %d'
-                            % (transport, n, k, maxread, len(got), i), {'transport': transport, 'n': n, 'piece': k, 'maxread': maxread})
+                            % (transport, n, k, maxread, len(got), i), {'transport': transport, 'n': n, 'piece': k, 'maxread': maxread, 'use_poll': up})
                     return tried
     return tried
 
